@@ -35,6 +35,14 @@ type tnState struct {
 	approx string          // non-empty: a step was modelled on part of the alphabet only
 }
 
+func (s *tnState) clone() *tnState {
+	c := &tnState{prefix: s.prefix, h: map[byte]string{}, alpha: s.alpha, sep: s.sep, approx: s.approx}
+	for k, v := range s.h {
+		c.h[k] = v
+	}
+	return c
+}
+
 func (s *tnState) mapBytes(f func(string) string) {
 	s.prefix = f(s.prefix)
 	for _, b := range s.alpha {
@@ -108,42 +116,134 @@ func RuleTN1(c *Ctx) {
 	}
 	sc.Holds("domain:"+titleFn.Name(), c.P.Pos(c.P.Decl(titleFn).Pos()), fmt.Sprintf("%d call site(s) pass %s(...), whose results are %q or %q + a non-empty element of strings.Split(path, %q)", len(sites), titleFn.Name(), sep, sep, sep))
 
-	// --- abstract interpretation of the pipeline
-	st := &tnState{prefix: sep, sep: sep, h: map[byte]string{}}
+	// --- abstract interpretation of the pipeline: an environment maps the parameter and
+	// local string variables to abstract values; expressions are evaluated recursively, so
+	// `x = f(x)` sequences, fresh locals and nested calls `g(f(x))` are all understood
+	st0 := &tnState{prefix: sep, sep: sep, h: map[byte]string{}}
 	for b := 0; b < 256; b++ {
 		if !strings.Contains(sep, string([]byte{byte(b)})) {
-			st.alpha = append(st.alpha, byte(b))
-			st.h[byte(b)] = string([]byte{byte(b)})
+			st0.alpha = append(st0.alpha, byte(b))
+			st0.h[byte(b)] = string([]byte{byte(b)})
 		}
 	}
 	param := info.ObjectOf(nfd.Type.Params.List[0].Names[0])
+	env := map[types.Object]*tnState{param: st0}
 	special := map[string]string{}
 	var specialOrder []string
 	steps := 0
-	returned := false
-	isParam := func(e ast.Expr) bool {
-		id, ok := ast.Unparen(e).(*ast.Ident)
-		return ok && info.ObjectOf(id) == param
-	}
+	var st *tnState
 	constStr := func(e ast.Expr) (string, bool) {
 		if tv, ok := info.Types[e]; ok && tv.Value != nil && tv.Value.Kind() == constant.String {
 			return constant.StringVal(tv.Value), true
 		}
 		return "", false
 	}
+	isRawParam := func(e ast.Expr) bool {
+		id, ok := ast.Unparen(e).(*ast.Ident)
+		return ok && info.ObjectOf(id) == param && env[param] == st0
+	}
+	var eval func(e ast.Expr) (*tnState, string)
+	eval = func(e ast.Expr) (*tnState, string) {
+		e = ast.Unparen(e)
+		switch x := e.(type) {
+		case *ast.Ident:
+			if v, ok := env[info.ObjectOf(x)]; ok {
+				return v, ""
+			}
+			return nil, "the variable " + x.Name + " does not hold a value derived from the argument"
+		case *ast.CallExpr:
+			if tv, isT := info.Types[x.Fun]; isT && tv.IsType() && len(x.Args) == 1 {
+				if b, ok := tv.Type.Underlying().(*types.Basic); ok && b.Info()&types.IsString != 0 {
+					return eval(x.Args[0]) // string-to-string conversion
+				}
+				return nil, "conversion " + types.ExprString(x)
+			}
+			g := Callee(info, x)
+			full := ""
+			if g != nil && g.Pkg() != nil {
+				full = g.Pkg().Path() + "." + g.Name()
+			}
+			if len(x.Args) == 0 {
+				return nil, "unrecognised step " + types.ExprString(x)
+			}
+			in, why := eval(x.Args[0])
+			if in == nil {
+				return nil, why
+			}
+			out := in.clone()
+			steps++
+			switch full {
+			case "strings.ReplaceAll":
+				old, ok1 := constStr(x.Args[1])
+				nw, ok2 := constStr(x.Args[2])
+				if !ok1 || !ok2 || len(old) != 1 {
+					return nil, "ReplaceAll with a non-constant or multi-byte pattern: " + types.ExprString(x)
+				}
+				out.mapBytes(func(y string) string { return strings.ReplaceAll(y, old, nw) })
+			case "strings.Replace":
+				old, ok1 := constStr(x.Args[1])
+				nw, ok2 := constStr(x.Args[2])
+				cnt := int64(-2)
+				if tv, has := info.Types[x.Args[3]]; has && tv.Value != nil {
+					cnt, _ = constant.Int64Val(tv.Value)
+				}
+				if !ok1 || !ok2 || len(old) != 1 {
+					return nil, "Replace with a non-constant or multi-byte pattern: " + types.ExprString(x)
+				}
+				switch {
+				case cnt < 0:
+					out.mapBytes(func(y string) string { return strings.ReplaceAll(y, old, nw) })
+				case cnt == 1 && strings.Contains(out.prefix, old):
+					// the first occurrence lies in the literal prefix, whatever s is
+					out.prefix = strings.Replace(out.prefix, old, nw, 1)
+				default:
+					return nil, "Replace of the first n occurrences where they may fall into the free part of the argument: " + types.ExprString(x)
+				}
+			case "net/url.PathEscape":
+				out.mapBytes(bytewise(url.PathEscape))
+			case "net/url.QueryEscape":
+				out.mapBytes(bytewise(url.QueryEscape))
+			case "strings.ToLower":
+				out.mapBytes(bytewise(asciiOnly(strings.ToLower)))
+				out.approx = "strings.ToLower is modelled on ASCII bytes only"
+			case "strings.ToUpper":
+				out.mapBytes(bytewise(asciiOnly(strings.ToUpper)))
+				out.approx = "strings.ToUpper is modelled on ASCII bytes only"
+			default:
+				return nil, "unrecognised step " + types.ExprString(x) + ": it is not one of the byte-wise steps whose composition this rule can decide (a decoder such as PathUnescape, a trim, a case fold on non-ASCII text are not)"
+			}
+			return out, ""
+		case *ast.BinaryExpr:
+			// literal + value: a longer literal prefix
+			if x.Op == token.ADD {
+				if lit, ok := constStr(x.X); ok {
+					in, why := eval(x.Y)
+					if in == nil {
+						return nil, why
+					}
+					out := in.clone()
+					out.prefix = lit + out.prefix
+					return out, ""
+				}
+			}
+		}
+		return nil, "unrecognised expression " + types.ExprString(e)
+	}
 	for _, stmt := range nfd.Body.List {
 		pos := c.P.Pos(stmt.Pos())
-		if returned {
+		if st != nil {
 			sc.Undecided("pipeline", pos, "statement after the return")
 			return
 		}
 		switch s := stmt.(type) {
 		case *ast.IfStmt:
-			// if x == "lit" { return "const" }   (only before any step)
+			// if x == "lit" { return "const" }   (only while x is still the raw argument)
 			be, ok := ast.Unparen(s.Cond).(*ast.BinaryExpr)
 			in, okIn := "", false
-			if ok && be.Op == token.EQL && isParam(be.X) {
+			if ok && be.Op == token.EQL && isRawParam(be.X) {
 				in, okIn = constStr(be.Y)
+			} else if ok && be.Op == token.EQL && isRawParam(be.Y) {
+				in, okIn = constStr(be.X)
 			}
 			var out string
 			okOut := false
@@ -152,71 +252,48 @@ func RuleTN1(c *Ctx) {
 					out, okOut = constStr(ret.Results[0])
 				}
 			}
-			if !okIn || !okOut || steps > 0 {
-				sc.Undecided("pipeline", pos, "unrecognised step in the name function (only `if x == \"lit\" { return \"const\" }` before the first transformation is understood): "+nodeString(c, s.Cond)+" - injectivity is not established")
+			if !okIn || !okOut {
+				sc.Undecided("pipeline", pos, "unrecognised step in the name function (only `if x == \"lit\" { return \"const\" }` on the untransformed argument is understood): "+nodeString(c, s.Cond)+" - injectivity of the automatic tag name is not established")
 				return
 			}
 			special[in] = out
 			specialOrder = append(specialOrder, in)
 		case *ast.AssignStmt:
-			if len(s.Lhs) != 1 || len(s.Rhs) != 1 || s.Tok != token.ASSIGN || !isParam(s.Lhs[0]) {
-				sc.Undecided("pipeline", pos, "unrecognised statement in the name function: "+nodeString(c, s)+" - injectivity is not established")
+			if len(s.Lhs) != 1 || len(s.Rhs) != 1 || (s.Tok != token.ASSIGN && s.Tok != token.DEFINE) {
+				sc.Undecided("pipeline", pos, "unrecognised statement in the name function: "+nodeString(c, s)+" - injectivity of the automatic tag name is not established")
 				return
 			}
-			call, ok := ast.Unparen(s.Rhs[0]).(*ast.CallExpr)
-			if !ok || len(call.Args) == 0 || !isParam(call.Args[0]) {
-				sc.Undecided("pipeline", pos, "unrecognised step: "+nodeString(c, s.Rhs[0])+" - injectivity is not established")
+			id, ok := ast.Unparen(s.Lhs[0]).(*ast.Ident)
+			if !ok {
+				sc.Undecided("pipeline", pos, "unrecognised assignment target: "+nodeString(c, s.Lhs[0]))
 				return
 			}
-			g := Callee(info, call)
-			full := ""
-			if g != nil && g.Pkg() != nil {
-				full = g.Pkg().Path() + "." + g.Name()
-			}
-			steps++
-			switch full {
-			case "strings.ReplaceAll":
-				old, ok1 := constStr(call.Args[1])
-				nw, ok2 := constStr(call.Args[2])
-				if !ok1 || !ok2 || len(old) != 1 {
-					sc.Undecided("pipeline", pos, "ReplaceAll with a non-constant or multi-byte pattern: "+nodeString(c, call))
-					return
-				}
-				st.mapBytes(func(x string) string { return strings.ReplaceAll(x, old, nw) })
-			case "strings.Replace":
-				old, ok1 := constStr(call.Args[1])
-				nw, ok2 := constStr(call.Args[2])
-				cnt := int64(-2)
-				if tv, has := info.Types[call.Args[3]]; has && tv.Value != nil {
-					cnt, _ = constant.Int64Val(tv.Value)
-				}
-				if !ok1 || !ok2 || len(old) != 1 {
-					sc.Undecided("pipeline", pos, "Replace with a non-constant or multi-byte pattern: "+nodeString(c, call))
-					return
-				}
-				switch {
-				case cnt < 0:
-					st.mapBytes(func(x string) string { return strings.ReplaceAll(x, old, nw) })
-				case cnt == 1 && strings.Contains(st.prefix, old):
-					// the first occurrence lies in the literal prefix, whatever s is
-					st.prefix = strings.Replace(st.prefix, old, nw, 1)
-				default:
-					sc.Undecided("pipeline", pos, "Replace of the first n occurrences where they may fall into the free part of the argument: "+nodeString(c, call))
-					return
-				}
-			case "net/url.PathEscape":
-				st.mapBytes(bytewise(url.PathEscape))
-			case "net/url.QueryEscape":
-				st.mapBytes(bytewise(url.QueryEscape))
-			case "strings.ToLower":
-				st.mapBytes(bytewise(asciiOnly(strings.ToLower)))
-				st.approx = "strings.ToLower is modelled on ASCII bytes only"
-			case "strings.ToUpper":
-				st.mapBytes(bytewise(asciiOnly(strings.ToUpper)))
-				st.approx = "strings.ToUpper is modelled on ASCII bytes only"
-			default:
-				sc.Undecided("pipeline", pos, "unrecognised step "+nodeString(c, call)+": it is not one of the byte-wise steps whose composition this rule can decide (a decoder such as PathUnescape, a trim, a case fold on non-ASCII text are not) - injectivity of the automatic tag name is not established")
+			v, why := eval(s.Rhs[0])
+			if v == nil {
+				sc.Undecided("pipeline", pos, why+" - injectivity of the automatic tag name is not established")
 				return
+			}
+			if id.Name != "_" {
+				env[info.ObjectOf(id)] = v
+			}
+		case *ast.DeclStmt:
+			gd, ok := s.Decl.(*ast.GenDecl)
+			if !ok || gd.Tok != token.VAR {
+				sc.Undecided("pipeline", pos, "unrecognised declaration in the name function")
+				return
+			}
+			for _, sp := range gd.Specs {
+				vs := sp.(*ast.ValueSpec)
+				for k, nm := range vs.Names {
+					if k < len(vs.Values) {
+						v, why := eval(vs.Values[k])
+						if v == nil {
+							sc.Undecided("pipeline", pos, why+" - injectivity of the automatic tag name is not established")
+							return
+						}
+						env[info.ObjectOf(nm)] = v
+					}
+				}
 			}
 		case *ast.ReturnStmt:
 			if len(s.Results) != 1 {
@@ -229,17 +306,18 @@ func RuleTN1(c *Ctx) {
 					e = ast.Unparen(conv.Args[0])
 				}
 			}
-			if !isParam(e) {
-				sc.Undecided("pipeline", pos, "the result is not the transformed argument: "+nodeString(c, s.Results[0]))
+			v, why := eval(e)
+			if v == nil {
+				sc.Undecided("pipeline", pos, why+" - injectivity of the automatic tag name is not established")
 				return
 			}
-			returned = true
+			st = v
 		default:
-			sc.Undecided("pipeline", pos, "unrecognised statement in the name function: "+nodeString(c, stmt)+" - injectivity is not established")
+			sc.Undecided("pipeline", pos, "unrecognised statement in the name function: "+nodeString(c, stmt)+" - injectivity of the automatic tag name is not established")
 			return
 		}
 	}
-	if !returned {
+	if st == nil {
 		sc.Undecided("pipeline", c.P.Pos(nfd.Pos()), "no final return found")
 		return
 	}
